@@ -26,6 +26,7 @@ def run(repo, report, tier):
     report.guard("C06.R2", "OutputFiles", r2_files, repo, report)
     report.guard("C06.R3", "OrderedChunkWriter", r3_ordered, repo, report)
     report.guard("C06.R4", "__iadd__ classes", r4_merges, repo, report)
+    report.guard("C06.R4", "Statistics.__iadd__ per-read slots", r4_statistics_slots, repo, report)
     report.guard("C06.R5", "pickling", r5_pickle, repo, report)
     from . import c19
 
@@ -652,10 +653,12 @@ def r5_pickle(repo, report):
             n += 1
             fn = cls.methods["__reduce__"]
             rets = [x for x in ast.walk(fn) if isinstance(x, ast.Return)]
-            if len(rets) != 1 or not isinstance(rets[0].value, ast.Tuple) or len(rets[0].value.elts) != 2 or not isinstance(rets[0].value.elts[1], ast.Tuple):
+            from ..repo import expand
+            rv_ = expand(fn, rets[0].value) if len(rets) == 1 and rets[0].value is not None else None  # an argument tuple built in a local first is the same thing
+            if rv_ is None or not isinstance(rv_, ast.Tuple) or len(rv_.elts) != 2 or not isinstance(rv_.elts[1], ast.Tuple):
                 report.unrecognised("C06.R5", f"{cls.name}.__reduce__", "not 'return (Class, (args...))'", repo.loc(fn))
                 continue
-            klass, args = rets[0].value.elts
+            klass, args = rv_.elts
             init_name = "__cinit__" if "__cinit__" in cls.methods else "__init__"
             ps, pmap = _param_attr_map(repo, cls.name, init_name)
             problems = []
@@ -708,3 +711,41 @@ def r5_pickle(repo, report):
                 ok = not init_calls[0].args and not init_calls[0].keywords and len(params(cls.methods["__init__"])) == 1
             report.ob("C06.R5", f"{cls.name}.__getstate__/__setstate__", ok, facts=facts, expected="the state is exactly the constructor's arguments; __setstate__ re-runs __init__ with them", loc=repo.loc(gs))
     report.floor("C06.R5", "classes with custom pickling", n, 5)
+
+
+def r4_statistics_slots(repo, report):
+    """Statistics.__iadd__ merges the per-read lists (index 0 = R1, 1 = R2) in one loop.  Both slots must be merged for
+    every pair of objects, and inside the loop every per-read list is addressed with the loop variable."""
+    from ..repo import expand
+    c, fn = repo.need_method("Statistics", "__iadd__")
+    loops = [n for n in ast.walk(fn) if isinstance(n, ast.For) and isinstance(n.target, ast.Name) and any(isinstance(x, ast.Subscript) and isinstance(x.slice, ast.Name) and x.slice.id == n.target.id and (chain(x.value) or "").startswith(("self.", "other."))
+                                                                                                     for x in ast.walk(n))]
+    outer = [l for l in loops if not any(l is not o and any(x is l for x in ast.walk(o)) for o in loops)]
+    if len(outer) != 1:
+        raise Unrecognised("Statistics.__iadd__: the one loop over the read index not found", repo.loc(fn))
+    lp = outer[0]
+    i = lp.target.id
+    it = expand(fn, lp.iter)
+    vals = None
+    if isinstance(it, (ast.Tuple, ast.List)) and all(isinstance(e, ast.Constant) for e in it.elts):
+        vals = sorted(e.value for e in it.elts)
+    elif isinstance(it, ast.Call) and chain(it.func) == "range" and len(it.args) == 1 and isinstance(it.args[0], ast.Constant):
+        vals = list(range(it.args[0].value))
+    if vals is not None:
+        report.ob("C06.R4", "Statistics.__iadd__ merges both per-read slots", vals == [0, 1], facts={"indices": vals}, expected="for i in (0, 1)", loc=repo.loc(lp),
+                  why="" if vals == [0, 1] else "the statistics of one of the two reads are not merged")
+    else:
+        adoption = [n for n in ast.walk(fn) if isinstance(n, ast.Assign) and chain(n.targets[0]) == "self.paired"]
+        defs = [n for n in ast.walk(fn) if isinstance(n, ast.Assign) and isinstance(lp.iter, ast.Name) and chain(n.targets[0]) == lp.iter.id]
+        text = src(it)
+        if "self.paired" in text and adoption and (not defs or defs[0].lineno < adoption[0].lineno):
+            report.ob("C06.R4", "Statistics.__iadd__ merges both per-read slots", False, facts={"indices": text}, expected="for i in (0, 1)", loc=repo.loc(lp),
+                      why=f"the read indices are {text}, decided before self.paired is adopted from the other object: merging into a fresh Statistics (paired is None) drops the second read's tallies")
+        else:
+            report.unrecognised("C06.R4", "Statistics.__iadd__ merges both per-read slots", f"read indices {text} are not a constant", repo.loc(lp))
+    # inside the loop: lists that are indexed with i anywhere are per-read lists; none of them may be indexed with a constant
+    per_read = {chain(x.value) for x in ast.walk(lp) if isinstance(x, ast.Subscript) and isinstance(x.slice, ast.Name) and x.slice.id == i and chain(x.value)}
+    const_idx = sorted({src(x) for x in ast.walk(lp) if isinstance(x, ast.Subscript) and isinstance(x.slice, ast.Constant) and isinstance(x.slice.value, int) and chain(x.value) in per_read})
+    report.ob("C06.R4", "Statistics.__iadd__: per-read lists are addressed with the loop index", not const_idx and len(per_read) >= 5, facts={"per_read_lists": sorted(per_read), "constant_subscripts": const_idx},
+              expected=f"inside 'for {i} in (0, 1)' every per-read list is subscripted with {i}", loc=repo.loc(lp),
+              why=(f"{const_idx[0]} inside the loop over the read index: the bound/tally of one read is used for the other (R2 adapters beyond the number of R1 adapters are not merged)" if const_idx else ""))
